@@ -453,6 +453,33 @@ def run(world, rep, tier, only=None):
         n_h += set_then_write(f, ss, ws, bufidx, "journal writer")
     rep.floor("C14.h checksum-set / write pairs examined", n_h, 8)
 
+    # ------------------------------------------------------------------ C14.i a failed journal checksum is excused only for a strictly older block
+    # A descriptor/revoke/commit block whose checksum fails is taken for a left-over of an earlier use of the
+    # journal - and recovery ends quietly with success - only when its commit time is strictly before the previous
+    # transaction's.  Commit times have one-second resolution: back-to-back transactions share one, and with `<=`
+    # every altered block of such a transaction would be dropped without a word.
+    n_ct = 0
+    for pn in ("e2fsck", "debugfs"):
+        pr = world.program(pn)
+        dop = pr.fn("do_one_pass")
+        for bid in dop.blocks:
+            lit = dop.literal(bid)
+            if not lit:
+                continue
+            a = T.strip(lit[0])
+            if not (isinstance(a, dict) and a.get("k") == "b" and a.get("o") in ("<", "<=", ">", ">=")):
+                continue
+            l, r = T.path(a.get("l")), T.path(a.get("r"))
+            if {l, r} != {"commit_time", "last_trans_commit_time"}:
+                continue
+            n_ct += 1
+            small, big = (l, r) if a["o"] in ("<", ">=") else (r, l)      # the test is `small < big` or its negation
+            rep.ob("C14.i", site(dop, "stale-block excuse needs a strictly older commit time[%s]#%d" % (pn, n_ct)),
+                   (small, big) == ("commit_time", "last_trans_commit_time"),
+                   "`%s` decides between `commit_time < last_trans_commit_time` and its negation (equal times are the same journal)" %
+                   T.pp(a)[:60])
+    rep.floor("C14.i commit-time comparisons in do_one_pass", n_ct, 4)
+
     # ------------------------------------------------------------------ C14.f CRC tables
     crc_tables(world, rep)
 
